@@ -254,7 +254,8 @@ def finish(ctx):
         'violations': len(ctx.violations),
     }
     os.makedirs(os.path.join(VERIF, 'evidence'), exist_ok=True)
-    with open(os.path.join(VERIF, 'evidence', ctx.pid + '.json'), 'w') as f:
+    evname = ctx.pid + '.json' if ctx.proof is not None else '.dev_' + ctx.pid + '.json'   # --no-proof runs never touch the real file
+    with open(os.path.join(VERIF, 'evidence', evname), 'w') as f:
         json.dump(ev, f, indent=1, sort_keys=True, default=repr)
         f.write('\n')
     for k in ctx.known:
